@@ -1,6 +1,9 @@
 package progenum
 
-import "strings"
+import (
+	"fmt"
+	"strings"
+)
 
 // Form is a list of Go statements placed into a position. Family "core" forms
 // use only constructs of the supported subset that goose is known to handle;
@@ -266,10 +269,70 @@ func scopeMatrixForms() []Form {
 	return out
 }
 
+// loopHeaderForms: every combination of init / condition / post being present in a
+// three-clause loop (the exit of a condition-less loop is a break nested in an if),
+// and copies initialised from every kind of l-value (the copy is written, the source observed).
+func loopHeaderForms() []Form {
+	var out []Form
+	for _, init := range []bool{false, true} {
+		for _, cond := range []bool{false, true} {
+			for _, post := range []bool{false, true} {
+				pre, hdrInit, hdrCond, hdrPost, bodyPost, guard := "", "", "", "", "", ""
+				if init {
+					hdrInit = "li := uint64(0)"
+				} else {
+					pre = "var li uint64 = 0\n"
+				}
+				if cond {
+					hdrCond = " li < 3"
+				} else {
+					guard = "\tif li >= 3 {\n\t\tbreak\n\t}\n"
+				}
+				if post {
+					hdrPost = " li += 1"
+				} else {
+					bodyPost = "\tli = li + 1\n"
+				}
+				hdr := "for " + hdrInit + ";" + hdrCond + ";" + hdrPost + " {"
+				if !init && !post {
+					if cond {
+						hdr = "for" + hdrCond + " {"
+					} else {
+						hdr = "for {"
+					}
+				}
+				id := fmt.Sprintf("loophdr_init%v_cond%v_post%v", init, cond, post)
+				code := pre + hdr + "\n" + guard + "\tr += li + 1\n" + bodyPost + "}"
+				if post && !cond {
+					// continue must still run the post statement
+					out = append(out, f(id+"_continue", pre+hdr+"\n"+guard+"\tif li == 1 {\n\t\tcontinue\n\t}\n\tr += li + 1\n}"))
+				}
+				out = append(out, f(id, code))
+			}
+		}
+	}
+	srcs := [][3]string{ // id, declaration of the copy, observation of the source
+		{"deref_u64", "var cp uint64 = *p\ncp = cp + 1\nr = cp", ""},
+		{"deref_struct", "var cp S = *sp\ncp.f = cp.f + 50\nr = cp.f", ""},
+		{"field", "var cp uint64 = sp.g\ncp = cp + 1\nr = cp", ""},
+		{"nested_field", "var cp In = sv.in\ncp.h = cp.h + 9\nr = cp.h", ""},
+		{"elem", "var cp uint64 = xs[1]\ncp = cp + 1\nr = cp", ""},
+		{"struct_elem", "var cp S2 = ts[1]\ncp.a = cp.a + 9\nr = cp.a", ""},
+		{"var", "var cp uint64 = a\ncp = cp + 1\nr = cp", ""},
+		{"struct_var", "var cp S = sv\ncp.g = cp.g + 3\nr = cp.g", ""},
+		{"forinit_deref", "for fi := *p; fi < *p+2; fi++ {\n\tr += 1\n}", ""},
+		{"define_deref_struct", "cp := *sp\nsp.f = sp.f + 50\nr = cp.f", ""},
+	}
+	for _, sc := range srcs {
+		out = append(out, f("copyinit_"+sc[0], sc[1]))
+	}
+	return out
+}
+
 // CoreForms returns every core form.
 func CoreForms() []Form {
 	var out []Form
-	for _, g := range [][]Form{binopForms(), convForms(), assignForms(), dataForms(), callForms(), compoundForms(), sliceMatrixForms(), scopeMatrixForms()} {
+	for _, g := range [][]Form{binopForms(), convForms(), assignForms(), dataForms(), callForms(), compoundForms(), sliceMatrixForms(), scopeMatrixForms(), loopHeaderForms()} {
 		out = append(out, g...)
 	}
 	return out
